@@ -17,8 +17,11 @@ cargo test --offline 2>&1 | grep -E "^test result|FAILED|error\[" | head -8
 git checkout -q -- . ; rm -f tests/demo.rs
 cd /verif
 git -C /repo apply $M/patch.diff || { echo "PATCH DOES NOT APPLY TO /repo"; exit 2; }
+# evidence of a run against a changed tree must never replace the committed evidence
+rm -rf /verif/work/evidence.bak; cp -r /verif/evidence /verif/work/evidence.bak
 for c in "$@"; do
   ./check $c 2>&1 | grep -E "^VIOLATION|^FAIL|property=" | cut -c1-220
 done
 git -C /repo checkout -- .
+rm -rf /verif/evidence; mv /verif/work/evidence.bak /verif/evidence
 git -C /repo status --short | head -3
